@@ -13,6 +13,8 @@ Quirks kept as in the source:
 * `packet_requested` is ignored in TRANSMIT_RESPONSE and WAIT_FOR_ACK, `ack` everywhere except
   WAIT_FOR_ACK; (repaired code) an `ack` counts only while the tokenizer still shows an IN token for
   this endpoint (`handshakes_in.ack & targeting_endpoint`);
+* (repaired code, 61d16f5) ClearFeature(ENDPOINT_HALT) naming this IN endpoint resets the toggle to DATA0 in
+  every state, overriding a flip of the same cycle;
 * with `signal_domain != "usb"` the source creates a 1-bit synchroniser whose output is never used
   (the latch still samples `self.signal` directly), so the behaviour is the same.
 
@@ -45,6 +47,7 @@ structure In where
   ack      : Bool    -- handshakes_in.ack
   txReady  : Bool
   signal   : Nat
+  clearHalt : Bool := false   -- clear_endpoint_halt_in.enable & .direction & (.number == endpoint_number)
 deriving Repr
 
 structure Out where
@@ -79,7 +82,8 @@ def byteAt (v idx : Nat) : Nat := v / 2 ^ (8 * idx) % 256
 def txIndex (c : Config) (sent : Nat) : Nat :=
   if c.bigEndian then nbytes c - sent - 1 else sent
 
-def step (c : Config) (s : State) (i : In) : State × Out :=
+/-- The FSM and its registers (everything except the halt-clear override). -/
+def stepCore (c : Config) (s : State) (i : In) : State × Out :=
   let payload := byteAt s.latched (txIndex c s.sent)
   match s.fsm with
   | .idle =>
@@ -101,6 +105,13 @@ def step (c : Config) (s : State) (i : In) : State × Out :=
   | .retransmit =>
     let o : Out := ⟨false, false, false, payload, s.toggle, false⟩
     if packetRequested c i then ({ s with sent := 0, fsm := .transmit }, o) else (s, o)
+
+/-- One clock cycle.  The halt-clear statement is emitted after the FSM in the source (/repo 61d16f5), so it wins
+over a toggle flip of the same cycle: the toggle register ends at 0; nothing else changes (the
+`tx_pid_toggle` output is the register, so the 0 is visible from the next cycle). -/
+def step (c : Config) (s : State) (i : In) : State × Out :=
+  let r := stepCore c s i
+  (if i.clearHalt then { r.1 with toggle := false } else r.1, r.2)
 
 /-- The per-cycle trace (input, output) of a whole input history. -/
 def trace (c : Config) : State → List In → List (In × Out)
